@@ -126,7 +126,8 @@ theorem runActs_wf (acts : List Act) (x : Ctx) {s : S} (h : s.WF) : (runActs s x
       simp only
       apply ih
       intro i; rw [schedAll_tempi]; exact hb i
-    | seed n => exact ih (s := (s.bumpPc x.rid).setRt _ _) hb
+    | seed n => exact ih (s := ((s.bumpPc x.rid).newGen n).setRt _ _) hb
+    | raise => exact hb
     | draw => exact ih (s := { (s.bumpPc x.rid).emit _ with draws := _ }) hb
     | pull r =>
       apply ih
@@ -206,7 +207,10 @@ theorem runSub_sysOnly (acts : List Act) (r : Nat) {s : S} (h : SysOnly s) : Sys
     simp only
     cases a with
     | yield d => exact hb
-    | seed n => apply ih; refine hb.setRt r _ ?_ ?_ <;> simp [hb.clock r]
+    | seed n =>
+      apply ih
+      have hg : SysOnly ((s.bumpPc r).newGen n) := hb.of_same rfl (fun _ => ⟨rfl, rfl⟩)
+      refine hg.setRt r _ ?_ ?_ <;> first | rfl | simp [hb.clock r]
     | draw => exact ih (hb.of_same rfl (fun _ => ⟨rfl, rfl⟩))
     | _ => exact ih hb
 
@@ -274,7 +278,11 @@ theorem runActs_sysOnly (acts : List Act) (x : Ctx) (hx : x.clk = .sys) {s : S} 
       apply ih'
       refine SysOnly.schedAll ?_ _
       exact hb.of_same rfl (fun _ => ⟨rfl, rfl⟩)
-    | seed n => apply ih'; refine hb.setRt x.rid _ ?_ ?_ <;> simp [hb.clock x.rid]
+    | seed n =>
+      apply ih'
+      have hg : SysOnly ((s.bumpPc x.rid).newGen n) := hb.of_same rfl (fun _ => ⟨rfl, rfl⟩)
+      refine hg.setRt x.rid _ ?_ ?_ <;> first | rfl | simp [hb.clock x.rid]
+    | raise => refine hb.setRt x.rid _ ?_ ?_ <;> simp [hb.clock x.rid]
     | draw => exact ih' (hb.of_same rfl (fun _ => ⟨rfl, rfl⟩))
     | pull r => exact ih' (hb.pull _ _)
 
@@ -341,7 +349,7 @@ theorem runSub_drawInv (acts : List Act) (r : Nat) {s : S} (h : DrawInv s) : Dra
     simp only
     cases a with
     | yield d => exact hb
-    | seed n => exact ih (hb.of_same rfl rfl)
+    | seed n => exact ih (hb.of_same (s' := ((s.bumpPc r).newGen n).setRt _ _) rfl rfl)
     | draw =>
       simp only
       apply ih
@@ -401,7 +409,8 @@ theorem runActs_drawInv (acts : List Act) (x : Ctx) {s : S} (h : DrawInv s) : Dr
     | signal c =>
       simp only
       exact ih (hb.of_same (schedAll_trace _ _) (schedAll_draws _ _))
-    | seed n => exact ih (hb.of_same rfl rfl)
+    | seed n => exact ih (hb.of_same (s' := ((s.bumpPc x.rid).newGen n).setRt _ _) rfl rfl)
+    | raise => exact hb.of_same rfl rfl
     | pull r => exact ih (pull_drawInv hb _ _)
     | draw =>
       simp only
